@@ -1591,3 +1591,78 @@ package runtime
 //@   exits any
 //@   requires c != nil && t != nil
 //@   ensures !fragNext && fragRes1 != nil ==> c.pc == pc
+
+// ---------------------------------------------------------------------------
+// C04 / C06: loading a binary chunk never allocates what the input merely claims
+// ---------------------------------------------------------------------------
+// The sizes in a dumped chunk come from the input.  Every allocation of the
+// reader is for a size that is non-negative and bounded (run-time-check
+// obligations of `make`, for all inputs), and the bytes to be read into it have
+// been taken from the budget - the memory the context has left - before it is
+// made.  (The budget panic is caught by UnmarshalConst; encoding/binary and the
+// underlying reader are external.)
+//@ func (*breader).consumeBudget
+//@   prop C06 C04
+//@   arith int
+//@   requires r != nil
+//@   modifies r.budget
+//@   exits any when r.budget != 0 && r.budget < amount
+//@   ensures old(r.budget) == 0 ==> r.budget == 0
+//@   ensures old(r.budget) != 0 ==> r.budget == old(r.budget) - amount
+
+//@ func (*breader).checkBudget
+//@   prop C06 C04
+//@   arith int
+//@   requires r != nil
+//@   modifies nothing
+//@   exits any when r.budget != 0 && r.budget < amount
+
+// (whether the underlying reader can tell how much input is left: an interface
+// test, external)
+//@ func (*breader).available
+//@   trusted
+//@   pure
+//@   requires r != nil
+//@   modifies nothing
+
+// A size taken from the input is used only after it has been validated: the
+// result is the size itself when it lies in [0, max], and 0 with the error set
+// otherwise (never negative, never above max).
+//@ func (*breader).size
+//@   prop C06 C04
+//@   arith int
+//@   requires r != nil && 0 <= max && max <= 1099511627776 && 1 <= elemSize && elemSize <= 8
+//@   modifies r.err
+//@   ensures 0 <= result && result <= max
+//@   ensures result == n || (result == 0 && r.err != nil)
+//@   ensures old(r.err) != nil ==> result == 0
+
+//@ func (*breader).read
+//@   trusted
+//@   requires r != nil
+//@   modifies everything()
+//@   exits any
+
+//@ func (*breader).readConst
+//@   trusted
+//@   requires r != nil
+//@   modifies everything()
+//@   exits any
+
+//@ func (*breader).readString
+//@   prop C04 C06
+//@   arith int
+//@   nocover
+//@   requires r != nil
+//@   modifies everything()
+//@   exits any
+
+//@ func (*breader).readCode
+//@   prop C04 C06
+//@   arith int
+//@   nocover
+//@   requires r != nil && c != nil
+//@   modifies everything()
+//@   exits any
+//@   loop 1: invariant true
+//@   loop 2: invariant true
